@@ -206,6 +206,16 @@ def oracle(ctx):
                    {b'src/many.container': unit + b'Label=k=v\n' * (N // 10)},
                    {b'src/many.container': unit + b'[Container]\n' * (N // 10)},
                    {b'src/many.container': unit + b'Exec=a ' + b'\\\n#c\n' * (N // 10) + b'b\n'}]
+    # values that contain the specifier they are substituted for, or themselves: every name the generator derives (service name,
+    # container name, pod name, resource names looked up by other units) is computed in one pass
+    for k, v in ((b'ServiceName', b'%N'), (b'ServiceName', b'web-%N'), (b'ContainerName', b'%N-%N'), (b'ServiceName', b'%N%N%N'),
+                 (b'ContainerName', b'systemd-%N'), (b'ServiceName', b'systemd-%N')):
+        long_trees.append({b'src/self.container': b'[Container]\nImage=i\n' + k + b'=' + v + b'\n', b'src/ok.volume': b'[Volume]\n'})
+        long_trees.append({b'src/self.container': b'[Container]\nImage=i\n', b'src/self.container.d/10.conf': b'[Container]\n' + k + b'=' + v + b'\n',
+                           b'src/ref.container': b'[Container]\nImage=i\nNetwork=self.container\n'})
+    long_trees += [{b'src/self.pod': b'[Pod]\nServiceName=%N\nPodName=%N\n', b'src/m.container': b'[Container]\nImage=i\nPod=self.pod\n'},
+                   {b'src/self.volume': b'[Volume]\nVolumeName=%N\nServiceName=%N-%N\n', b'src/m.container': b'[Container]\nImage=i\nVolume=self.volume:/d\n'},
+                   {b'src/self.build': b'[Build]\nImageTag=%N\nFile=/f\nServiceName=b-%N\n', b'src/m.container': b'[Container]\nImage=self.build\n'}]
     # not everything in a directory is a regular file: a FIFO, a link to a device that never ends (/dev/zero) or never answers, a socket-like
     # special file — named like a unit or like a drop-in — is reported for itself; the run ends and the units beside it are generated (D22)
     long_trees += [{b'src/f.container': ('fifo',), b'src/ok.volume': b'[Volume]\n'},
